@@ -105,7 +105,8 @@ C09Rules(r, f) ==
           <<"C09.rewrite-neutral", /\ f.fs_before = d.frames_start
                                    /\ f.audio_prefix_intact /\ f.prefix_intact
                                    /\ f.len = d.frames_start + HL(f.fin.bytes)>>,
-          <<"C09.regenerates", (Has(f, "regen") /\ Has(d, "seektable")) =>
+          <<"C09.finished-file-can-be-walked", ~Has(f, "regen_failed")>>,
+          <<"C09.regenerates", (Has(f, "regen") /\ ~Has(f, "regen_failed") /\ Has(d, "seektable")) =>
                 LET rg == f.regen IN
                 /\ Len(rg) >= 0          \* (a string here = generate_seektable failed: comparison error is a tooling error)
                 \* the same defined points: none missing at the end, none extra
